@@ -85,6 +85,8 @@ theorem C18_socket_zero_would_panic (k : Kind) (os : Os) (remote : Addr) (t : Ti
   cases hx : sockNew k os remote (some t) [] with
   | mk r h1 => rw [hx] at hnew; simp only at hnew; subst hnew; rfl
 
+example : (session .udp quietOs (.v4 127 0 0 1 27015) (some ⟨none, some ⟨0, 0⟩, none, 0⟩) []).1 = .crash := by decide
+
 /-- A zero CONNECT duration — also rejected by the constructor — would not even panic: `connect_timeout` answers it with an
 error value, which is `SocketConnect`. -/
 theorem C18_socket_connect_failure_is_an_error (os : Os) (remote : Addr) (t : Option Timeout) (e : IoKind)
@@ -104,3 +106,6 @@ theorem C18_socket_buffer_sizes (k : Kind) (os : Os) (remote : Addr) (size : Opt
   · intro hs
     have : CAPACITY_LIMIT ≤ size.getD DEFAULT_PACKET_SIZE := hs
     cases k <;> simp [step, udpReceive, tcpReceive, this]
+
+example : (step .udp quietOs (.v4 127 0 0 1 1) (.receive (some (2 ^ 63))) []).1 = .crash := by decide
+example : (step .tcp quietOs (.v4 127 0 0 1 1) (.receive none) []) = (.err .packetReceive, [.read 1]) := by decide
